@@ -116,6 +116,13 @@ def run(prop, tier, seed):
             pst2 = pipeline.tlc_prop_stage([{"module": "MC_Equality.tla", "cfg": "MC_Equality_prop.cfg"}], scratch, 600)
             pst2.name = "tlc_properties_equality"
             stages += [est, pst2]
+        if prop == "C04":
+            # "param.update(...) used as a context manager restores the previous values and links on exit"
+            from harness.props import refs as refsmod
+            n = "C04_refs.cfg"
+            stages.append(pipeline.replay_stage(
+                [{"module": "MC_Refs.tla", "cfg": n, "workers": 8, "simulate": 300 if quick else 10000, "depth": 10, "seed": seed,
+                  "extra_defs": {n: refsmod.cfg("KAll", 5, True, acts="AUpd")}}], "refs", {}, scratch, 900, name="replay_update_context_links"))
         th.join()
     return pipeline.finish(prop, tier, seed, t0, [box["st"]] + stages, rule=rule,
                            assumptions=["small-scope: 2 parameters (+1 Event / constant), <=3 watchers from a fixed set of configurations, <=3-5 user operations exhaustively, longer by simulation",
